@@ -38,9 +38,23 @@ impl Prop for C13P {
             Tier::Quick => vec![(n, n), (1, n), (n, 1)],
             Tier::Thorough => vec![(n, n), (1, n), (n, 1), (2, 3), (3, 2)],
         };
-        receivers(n, true, tier == Tier::Thorough, &parents).iter().map(|r| r.enc()).collect()
+        let mut v: Vec<String> = receivers(n, true, tier == Tier::Thorough, &parents).iter().map(|r| r.enc()).collect();
+        for (c, r) in crate::engine::util::shapes(3) {
+            v.push(format!("zst {}x{}", c, r));
+        }
+        v
     }
     fn run_unit(&self, unit: &str, ctx: &mut Ctx) {
+        if let Some(dims) = unit.strip_prefix("zst ") {
+            let (c, r) = dims.split_once('x').unwrap();
+            let (c, r): (usize, usize) = (c.parse().unwrap(), r.parse().unwrap());
+            let ops: Vec<super::ops::Op> = super::ops::ops_for(c, r, 0)
+                .into_iter()
+                .filter(|o| matches!(o, super::ops::Op::Swap(..) | super::ops::Op::SwapRows(..) | super::ops::Op::SwapCols(..) | super::ops::Op::RowPairWrite(..) | super::ops::Op::Fill))
+                .collect();
+            super::ops::zst_panic_differential(c, r, &ops, ctx);
+            return;
+        }
         let rd = Recv::parse(unit);
         run_receiver(&rd, ctx);
     }
@@ -48,7 +62,7 @@ impl Prop for C13P {
         "for every receiver (owned arrays of every shape, every window of the listed parents as TooDeeViewMut, nested windows in the thorough tier, and two third-party implementors that forward only the required trait methods so that every default method body runs): \
          swap(a,b) for all coordinate pairs in (0..=dim+1)^4 plus huge components, swap_rows / swap_cols / row_pair_mut for all index pairs in (0..=dim+1 + huge)^2, fill. \
          In range: exactly the named cells/rows/columns exchanged (whole parent compared with the model, so cells outside a window are covered), row_pair_mut slices compared by address and order; out of range (or r1==r2 for row_pair_mut): must panic and leave the parent unchanged. \
-         A case is (receiver, call, arguments); non-trivial when the receiver is non-empty; distinct by (receiver, call, arguments)."
+         Arrays and windows of the zero-sized () must accept and reject exactly the same arguments as arrays of ordinary elements (shapes up to 3x3). A case is (receiver, call, arguments); non-trivial when the receiver is non-empty; distinct by (receiver, call, arguments)."
             .into()
     }
     fn bound(&self, tier: Tier) -> String {
